@@ -23,9 +23,22 @@ type Fataler interface {
 }
 
 // Effect is a counting side effect.
-type Effect struct{ N atomic.Int64 }
+type Effect struct {
+	N    atomic.Int64
+	Hold chan struct{} // non-nil: every execution blocks until the channel is closed (a hung webhook)
+}
 
-func (e *Effect) Exec() error { e.N.Add(1); return nil }
+func (e *Effect) Exec() error {
+	e.N.Add(1)
+	if e.Hold != nil {
+		<-e.Hold
+	}
+	return nil
+}
+
+// BlockEffects makes the side effects of drivers built afterwards hang until the driver is
+// closed: a transition must start its side effect whether or not an earlier one has returned.
+var BlockEffects bool
 
 // WaitFor waits (real time) until the effect ran at least n times.
 func (e *Effect) WaitFor(n int64) bool {
@@ -81,6 +94,9 @@ type Flight struct {
 func New(t Fataler, expr string, f, r, p time.Duration, phase time.Duration) *Driver {
 	clock.Freeze(Epoch.Add(phase))
 	d := &Driver{T: t, Gate: &sim.Gate{}, OnTripped: &Effect{}, OnStandby: &Effect{}, F: f, R: r, P: p}
+	if BlockEffects {
+		d.OnTripped.Hold, d.OnStandby.Hold = make(chan struct{}), make(chan struct{})
+	}
 	fb := http.HandlerFunc(func(w http.ResponseWriter, req *http.Request) {
 		d.Fallbacks++
 		w.Header().Set("X-Fallback", "1")
@@ -102,6 +118,10 @@ func New(t Fataler, expr string, f, r, p time.Duration, phase time.Duration) *Dr
 func (d *Driver) Close() {
 	for len(d.InFlight) > 0 {
 		d.Finish(0, 200)
+	}
+	if d.OnTripped.Hold != nil {
+		close(d.OnTripped.Hold)
+		close(d.OnStandby.Hold)
 	}
 	clock.Unfreeze()
 }
